@@ -36,6 +36,10 @@ func (x *Exec) callWith(fr *Frame, st *State, c *ssa.CallCommon, fv Value, args 
 	}
 	switch f := fv.(type) {
 	case *ssa.Builtin:
+		if f.Name() == "append" {
+			x.appendCPS(fr, st, args, c, pos, k)
+			return
+		}
 		k(st, x.builtin(fr, st, f, c, args, pos))
 		return
 	case *FuncV:
@@ -66,7 +70,20 @@ func (x *Exec) nilFuncCheck(st *State, f *FuncV, pos token.Pos) {
 func (x *Exec) callFunc(fr *Frame, st *State, fn *ssa.Function, args []Value, nbind int, pos token.Pos, k func(*State, Value)) {
 	key := funcKey(fn)
 	fr.callOrd[key]++
+	ord := fr.callOrd[key]
 	x.callAsserts(fr, st, key, fr.callOrd[key], fn, args[nbind:], pos)
+	k0 := k
+	k = func(st2 *State, res Value) {
+		// remember the result of the ord-th call (callres() in contract expressions)
+		rs := fr.callRes[key]
+		for len(rs) < ord {
+			rs = append(rs, nil)
+		}
+		rs[ord-1] = res
+		fr.callRes[key] = rs
+		fr.callOrd[key] = ord
+		k0(st2, res)
+	}
 	if sp := x.special(fr, st, fn, key, args, pos, k); sp {
 		return
 	}
@@ -104,14 +121,17 @@ func (x *Exec) callAsserts(fr *Frame, st *State, key string, ord int, fn *ssa.Fu
 		if cl.At != key || (cl.AtN != 0 && cl.AtN != ord) {
 			continue
 		}
+		if cl.AtLine != "" && !strings.Contains(x.prog.sourceLine(pos), cl.AtLine) {
+			continue
+		}
 		ev := x.newEval(fr, st, nil)
 		// bind callee parameter names as $name
 		if fn != nil {
 			ps := fn.Params
 			for i, p := range ps {
 				if i < len(args) {
-					ev.bind["$"+p.Name()] = args[i]
-					ev.bindT["$"+p.Name()] = p.Type()
+					ev.bind["ARG_"+p.Name()] = args[i]
+					ev.bindT["ARG_"+p.Name()] = p.Type()
 				}
 			}
 		}
@@ -182,6 +202,13 @@ func (x *Exec) invoke(fr *Frame, st *State, c *ssa.CallCommon, recv Value, args 
 	x.callAsserts(fr, st, key, fr.callOrd[key], nil, args, pos)
 	ct := x.prog.cs.Funcs[key]
 	sig := c.Method.Type().(*types.Signature)
+	if key == "context.Context.Done" {
+		if iv, ok := recv.(*IfaceV); ok {
+			d := iv.Data
+			k(st, &Prim{T: x.freshConst(st, "donechan", SInt), DoneOf: &d})
+			return
+		}
+	}
 	if ct != nil {
 		all := append([]Value{recv}, args...)
 		x.applyContract(fr, st, ct, key, sig, nil, all, pos, k)
@@ -250,6 +277,10 @@ func (x *Exec) applyContract(fr *Frame, st *State, ct *Contract, key string, sig
 	pre := st.clone()
 	// havoc the callee's frame
 	x.havocAssigns(fr, st, ct, ev, key)
+	// the callee may allocate: the frontier moves (results are below the new frontier)
+	na := x.freshConst(st, "alloc", SInt)
+	st.assume(Ge(na, st.alloc))
+	st.alloc = na
 	// results
 	var res Value
 	var results []Value
@@ -271,6 +302,7 @@ func (x *Exec) applyContract(fr *Frame, st *State, ct *Contract, key string, sig
 	post := x.newEval(fr, st, nil)
 	post.callee = true
 	post.old = pre
+	post.freshBase = &pre.alloc
 	for n, v := range ev.bind {
 		post.bind[n] = v
 		post.bindT[n] = ev.bindT[n]
@@ -490,8 +522,6 @@ func (x *Exec) builtin(fr *Frame, st *State, b *ssa.Builtin, c *ssa.CallCommon, 
 		case *SliceV:
 			return &Prim{T: a.Cap}
 		}
-	case "append":
-		return x.appendOp(fr, st, args, c, pos)
 	case "copy":
 		return x.copyOp(st, args, pos)
 	case "delete":
@@ -531,8 +561,8 @@ func (x *Exec) builtin(fr *Frame, st *State, b *ssa.Builtin, c *ssa.CallCommon, 
 	return nil
 }
 
-// appendOp models append(s, t...). In place iff len(s)+len(t) <= cap(s).
-func (x *Exec) appendOp(fr *Frame, st *State, args []Value, c *ssa.CallCommon, pos token.Pos) Value {
+// appendCPS models append(s, t...): two paths, in place (len(s)+len(t) <= cap(s)) or reallocation.
+func (x *Exec) appendCPS(fr *Frame, st *State, args []Value, c *ssa.CallCommon, pos token.Pos, k func(*State, Value)) {
 	s, ok := args[0].(*SliceV)
 	if !ok {
 		if p, isnil := args[0].(*PtrV); isnil && p.Loc == nil {
@@ -548,54 +578,72 @@ func (x *Exec) appendOp(fr *Frame, st *State, args []Value, c *ssa.CallCommon, p
 		t = w
 	case *PtrV:
 		if w.Loc == nil {
-			return s
+			k(st, s)
+			return
 		}
 		x.abort("append of %T", args[1])
-	case *Prim:
-		x.abort("append of string to byte slice")
 	default:
 		x.abort("append of %T", args[1])
 	}
 	et := s.Elem
 	n := x.name(st, "applen", Add(s.Len, t.Len))
 	fits := Le(n, s.Cap)
-	nr := x.newRef(st)
-	ncap := x.freshConst(st, "newcap", SInt)
-	st.assume(Ge(ncap, n))
-	resPtr := x.name(st, "appptr", Ite(fits, s.Ptr, nr))
-	resOff := Ite(fits, s.Off, TZero)
-	resCap := Ite(fits, s.Cap, ncap)
 	tlen, tconst := isIntLit(t.Len)
-	for _, l := range leavesOf(et) {
-		key, arr := x.heapLeaf(st, "A", et, l.Path, l.Sort)
-		srow := Select(arr, s.Ptr)
-		trow := Select(arr, t.Ptr)
-		// in-place row: srow with t's elements written at off+len..
-		var inrow, newrow Term
-		if tconst && tlen <= 4 {
-			inrow = srow
-			for j := int64(0); j < tlen; j++ {
-				inrow = Store(inrow, Add(Add(s.Off, s.Len), IntLit(j)), Select(trow, Add(t.Off, IntLit(j))))
+	st2 := st.clone()
+	x.branch(func() {
+		// in place
+		st.assume(fits)
+		for _, l := range leavesOf(et) {
+			key, arr := x.heapLeaf(st, "A", et, l.Path, l.Sort)
+			srow := Select(arr, s.Ptr)
+			trow := Select(arr, t.Ptr)
+			var inrow Term
+			if tconst && tlen <= 4 {
+				inrow = srow
+				for j := int64(0); j < tlen; j++ {
+					inrow = Store(inrow, Add(Add(s.Off, s.Len), IntLit(j)), Select(trow, Add(t.Off, IntLit(j))))
+				}
+			} else {
+				inrow = x.freshConst(st, "inrow", ArrSort(l.Sort))
+				j := "j!q"
+				st.assume(Term{fmt.Sprintf("(forall ((%s Int)) (= (select %s %s) (ite (and (>= %s %s) (< %s %s)) (select %s (+ %s (- %s %s))) (select %s %s))))",
+					j, inrow.S, j, j, Add(s.Off, s.Len).S, j, Add(s.Off, n).S, trow.S, t.Off.S, j, Add(s.Off, s.Len).S, srow.S, j), SBool})
 			}
-		} else {
-			inrow = x.freshConst(st, "inrow", ArrSort(l.Sort))
-			j := "j!q"
-			st.assume(Term{fmt.Sprintf("(forall ((%s Int)) (= (select %s %s) (ite (and (>= %s %s) (< %s %s)) (select %s (+ %s (- %s %s))) (select %s %s))))",
-				j, inrow.S, j, j, Add(s.Off, s.Len).S, j, Add(s.Off, n).S, trow.S, t.Off.S, j, Add(s.Off, s.Len).S, srow.S, j), SBool})
+			x.checkFrame(st, key, s.Ptr)
+			x.recordWrite(st, key)
+			x.setHeap(st, key, Store(arr, s.Ptr, inrow))
 		}
-		// fresh row: elements of s then t from index 0
-		newrow = x.freshConst(st, "newrow", ArrSort(l.Sort))
-		{
+		k(st, &SliceV{Ptr: s.Ptr, Off: s.Off, Len: n, Cap: s.Cap, Elem: et})
+	}, func() {
+		// reallocation: fresh backing array holding s's elements followed by t's
+		st := st2
+		st.assume(Not(fits))
+		nr := x.newRef(st)
+		ncap := x.freshConst(st, "newcap", SInt)
+		st.assume(Ge(ncap, n))
+		for _, l := range leavesOf(et) {
+			key, arr := x.heapLeaf(st, "A", et, l.Path, l.Sort)
+			srow := Select(arr, s.Ptr)
+			trow := Select(arr, t.Ptr)
+			base := x.freshConst(st, "newrow", ArrSort(l.Sort))
 			j := "j!q"
-			st.assume(Term{fmt.Sprintf("(forall ((%s Int)) (=> (and (>= %s 0) (< %s %s)) (= (select %s %s) (ite (< %s %s) (select %s (+ %s %s)) (select %s (+ %s (- %s %s)))))))",
-				j, j, j, n.S, newrow.S, j, j, s.Len.S, srow.S, s.Off.S, j, trow.S, t.Off.S, j, s.Len.S), SBool})
+			st.assume(Term{fmt.Sprintf("(forall ((%s Int)) (=> (and (>= %s 0) (< %s %s)) (= (select %s %s) (select %s (+ %s %s)))))",
+				j, j, j, s.Len.S, base.S, j, srow.S, s.Off.S, j), SBool})
+			newrow := base
+			if tconst && tlen <= 4 {
+				for jj := int64(0); jj < tlen; jj++ {
+					newrow = Store(newrow, Add(s.Len, IntLit(jj)), Select(trow, Add(t.Off, IntLit(jj))))
+				}
+			} else {
+				newrow = x.freshConst(st, "newrow2", ArrSort(l.Sort))
+				st.assume(Term{fmt.Sprintf("(forall ((%s Int)) (= (select %s %s) (ite (and (>= %s %s) (< %s %s)) (select %s (+ %s (- %s %s))) (select %s %s))))",
+					j, newrow.S, j, j, s.Len.S, j, n.S, trow.S, t.Off.S, j, s.Len.S, base.S, j), SBool})
+			}
+			x.recordWrite(st, key)
+			x.setHeap(st, key, Store(arr, nr, newrow))
 		}
-		na := Ite(fits, Store(arr, s.Ptr, inrow), Store(arr, nr, newrow))
-		x.checkFrame(st, key, resPtr)
-		x.recordWrite(st, key)
-		x.setHeap(st, key, na)
-	}
-	return &SliceV{Ptr: resPtr, Off: resOff, Len: n, Cap: resCap, Elem: et}
+		k(st, &SliceV{Ptr: nr, Off: TZero, Len: n, Cap: ncap, Elem: et})
+	})
 }
 
 func (x *Exec) copyOp(st *State, args []Value, pos token.Pos) Value {
